@@ -55,9 +55,9 @@ def build(tier, seed, exclude):
     ''')
     quick = tier == "quick"
     to = 110 if quick else 600
-    params = ", ".join(f"c{i}: int" for i in range(NS)) + ", k: int, n: int"
-    pre = [" and ".join(f"0 <= c{i} < 4" for i in range(NS)), "0 <= k <= 3 and 1 <= n <= 3"]
-    ch = "[" + ", ".join(f"T.real(c{i})" for i in range(NS)) + "]"
+    params = "sd: int" + ", k: int, n: int"
+    pre = [f"0 <= sd < {4 ** NS}", "0 <= k <= 3 and 1 <= n <= 3"]
+    ch = f"AP.S.decode(T.real(sd), {NS}, 4)"
     for shape in ("indep", "forkjoin", "split", "splitcomb"):
         g.cond(f"h_{shape}", params, pre, f"""
             kk = T.real(k)
